@@ -162,7 +162,7 @@ def work_hist(chunk):
             col.violation({"property": "C09", "sig": "C09:second-simulate-on-same-object-differs", "kind": "hist", "spec": spec, "opts": opts, "hist": "sim;sim",
                            "detail": {"first_difference": first_diff(d1, d2)}})
         # (1a) earlier activity with *other* arguments on the same object, then the reference call again
-        for hist in (("sim-abs",), ("sim", "insert"), ("sim-abs", "remove"), ("sim-auto",), ("sim", "queries"), ("queries",)):
+        for hist in (("sim-abs",), ("sim", "insert"), ("sim-abs", "remove"), ("sim-auto",), ("sim", "queries"), ("queries",), ("sim-spt",), ("sim-lpt", "sim-fifo")):
             mo = runner.prepare(spec, opts)
             try:
                 for op in hist:
@@ -172,12 +172,19 @@ def work_hist(chunk):
                         mo.project.simulate(**runner.sim_kwargs(dict(opts, absence=[1, 2])))
                     elif op == "sim-auto":
                         mo.project.simulate(**runner.sim_kwargs(dict(opts, absence=[0], auto_abs=True)))
+                    elif op in ("sim-spt", "sim-lpt", "sim-fifo"):
+                        mo.project.simulate(**runner.sim_kwargs(dict(opts, rule={"sim-spt": "SPT", "sim-lpt": "LPT", "sim-fifo": "FIFO"}[op])))  # an earlier run under another priority rule
                     elif op == "insert":
                         mo.project.insert_absence_time_list([1])
                     elif op == "remove":
                         mo.project.remove_absence_time_list()
                     elif op == "queries":
                         runner.read_only_calls(mo.project)  # get_*_list, extract_*, chart and network data, print_* with default arguments
+            except Exception as e:
+                # the earlier activity itself raised (e.g. the known nested-placement crash of section 8.2 under another rule): no statement about the later run
+                col.aborted["%s during the earlier activity %s" % (type(e).__name__, "+".join(hist))] += 1
+                continue
+            try:
                 mo.project.simulate(**runner.sim_kwargs(opts))
                 d4 = jdump(mo)
             except Exception as e:
@@ -231,8 +238,8 @@ def work_hist(chunk):
                                    "detail": {"first_difference": first_diff(json.dumps(ref_d, sort_keys=True), json.dumps(got, sort_keys=True)) if not isinstance(got, str) else got}})
         # (1d) a run stopped at step k (optionally a holiday is entered at the stop): the project rebuilt at new addresses from what it writes to JSON
         #      must go on exactly like the original objects (nothing that steers the continuation may live outside the saved state)
-        for k in (1, 2, 3):
-            for ins in (None, [0], [1]):
+        for k in (1, 2, 3, 5, 8):
+            for ins in ((None, [0], [1]) if k <= 3 else (None,)):
                 import os
                 import tempfile
                 from pDESy.model.base_project import BaseProject
@@ -502,8 +509,9 @@ def hist_items(tier):
     # FIFO reads the logs: waiting and running tasks competing for a worker who becomes free later; tasks holding two worker/machine pairs
     for sp in F.rule_sensitive_specs()[:6] + [F.with_teams({"tasks": [{"name": "T0", "work": 4.0}, {"name": "T1", "work": 2.0}, {"name": "T2", "work": 3.0}], "links": []}, "POOL2")]:
         out.append((sp, {"rule": "FIFO", "max_time": F.seq_bound(sp) + 10}))
-    for sp in F.two_pair_specs():
+    for sp in F.two_pair_specs() + [F.decimal_floor_spec(), F.tied_lines_spec()]:
         out.append((sp, {"rule": "TSLACK", "max_time": F.seq_bound(sp) + 8}))
+    out.append((F.tied_lines_spec(), {"rule": "LRPT", "max_time": 30}))
     # design -> build next to a long independent task; one worker cannot design: a running task that can take a second worker competes with a waiting one
     for wv in ((3.0, 3.0, 6.0), (2.0, 3.0, 5.0), (3.0, 2.0, 4.0)):
         sp = {"tasks": [{"name": "design", "work": wv[0]}, {"name": "build", "work": wv[1]}, {"name": "docs", "work": wv[2]}], "links": [[0, 1, "FS"]],
